@@ -34,10 +34,24 @@ var guardSpecs = []guardSpec{
 		map[string]string{"err != nil": "getFailed", "errors.IsNotFound(err)": "notFound", "original.IsCompleted()": "sugCompleted", "original.IsRestarting()": "sugRestarting", "original.IsSucceeded()": "sugSucceeded", "instance.IsRestarting()": "expRestarting",
 			"instance.Spec.ResumePolicy == experimentsv1beta1.NeverResume": "never", "instance.Spec.ResumePolicy == experimentsv1beta1.FromVolume": "fromVolume"},
 		[]string{"getFailed", "notFound", "sugCompleted", "sugRestarting", "sugSucceeded", "expRestarting", "never", "fromVolume"}},
+	{"markSucceededGuard", "pkg/controller.v1beta1/trial/trial_controller_util.go", "UpdateTrialStatusCondition", "instance.MarkTrialStatusSucceeded(", verdictAtoms, verdictParams},
+	{"markUnavailableGuard", "pkg/controller.v1beta1/trial/trial_controller_util.go", "UpdateTrialStatusCondition", "instance.MarkTrialStatusMetricsUnavailable(", verdictAtoms, verdictParams},
+	{"markFailedGuard", "pkg/controller.v1beta1/trial/trial_controller_util.go", "UpdateTrialStatusCondition", "instance.MarkTrialStatusFailed(", verdictAtoms, verdictParams},
+	{"markRunningGuard", "pkg/controller.v1beta1/trial/trial_controller_util.go", "UpdateTrialStatusCondition", "instance.MarkTrialStatusRunning(", verdictAtoms, verdictParams},
 	{"sugRestartGuard", "pkg/controller.v1beta1/experiment/experiment_controller_util.go", "restartSuggestion", "original.DeepCopy()",
 		map[string]string{"err != nil": "getFailed", "errors.IsNotFound(err)": "notFound", "original.IsCompleted()": "sugCompleted", "original.IsRestarting()": "sugRestarting", "original.IsSucceeded()": "sugSucceeded", "instance.IsRestarting()": "expRestarting"},
 		[]string{"getFailed", "notFound", "sugCompleted", "sugRestarting", "sugSucceeded", "expRestarting"}},
 }
+
+var verdictAtoms = map[string]string{
+	"jobStatus.Condition == trialutil.JobSucceeded": "jobSucceeded", "jobStatus.Condition == trialutil.JobFailed": "jobFailed",
+	"jobStatus.Condition == trialutil.JobRunning": "jobRunning",
+	"instance.IsObservationAvailable()":           "obsAvailable", "instance.IsSucceeded()": "succeeded", "instance.IsEarlyStopped()": "earlyStopped",
+	"instance.IsMetricsUnavailable()": "metricsUnavailable", "instance.IsFailed()": "failed", "instance.IsRunning()": "running",
+	"instance.Spec.MetricsCollector.Collector.Kind == commonv1beta1.PushCollector": "push", "err != nil": "reportFailed",
+	"jobStatus.Message != \"\"": "hasMessage", "jobStatus.Reason != \"\"": "hasReason",
+}
+var verdictParams = []string{"jobSucceeded", "jobFailed", "jobRunning", "obsAvailable", "succeeded", "earlyStopped", "metricsUnavailable", "failed", "running", "push", "reportFailed", "hasMessage", "hasReason"}
 
 type guardWalker struct {
 	fset        *token.FileSet
